@@ -89,6 +89,11 @@ extra = {"C08": "yes: downloads after an abandoned earlier transfer on the same 
          "R17C20": "caught at once, by a measure taken while the change was being written: the 'next use' that must reclaim is varied - a request or a pushed response on an unrelated key, a response with a Block2 option of its own, a message that gets no response, a key kept busy throughout",
          "R18C09": "yes: the 4.13 hint names block 0 (pinned), and the oversize request arrives on a key that has seen other things before (a block-wise fetch abandoned at a later block, an unfinished upload)",
          "R20C19": "yes: the projection of a code is its byte plus its *form* (`Views!CodeForms`): the stored value is an enum, and besides the 256 values a byte decodes to the API can hold the catch-all method / status and a `Reserved` value with a named code's byte; both trait views must hand out the stored form, the getters report UnKnown for it, same-type copies (`direct02`/`direct03`) keep it, copies through a byte are canonical; `set_method(UnKnown)` / `set_status(UnKnown)` and hand-built `Reserved(b)` for all 256 b in the recorder",
+         "R21C07": "yes: diagnostics of 1023..4096 and 70 000 bytes (single- and two-byte characters) for every token length: the error's text is the reply's payload byte for byte whatever its length",
+         "R21C10": "yes: an exchange whose two entry points are separated by 1..300 (1100) complete exchanges on other keys (`deferred-crowd` in the budget recorder): the client's Block2 preference must still be honoured; the lost state is reported under C20 / C12 and, through `HintOk` / `RespOk`, under C10",
+         "R21C11": "yes: `BeyondEndOk` - where the specification refuses a Block2 request because the block starts at or beyond the end of a non-empty body (cached, or just produced for a first request naming a later block) the code must refuse it too; directed `at-the-end` family (bodies of k*size-1, k*size, k*size+1 bytes, the probe at the same and at smaller sizes, the honest client continuing afterwards)",
+         "R21C17": "yes: after `nth(j)` / `skip(j)` / `step_by(2)` on a fresh value iterator what follows is the rest of the characters in both unquoting paths (j = 0, 1, 2, n/2, n-1, n), not only the element returned",
+         "R21C20": "yes: a transfer kept in use only by requests for its key that the handler refuses (oversize body without Block1), each gap below the expiry and the total above it; reclamation where the next use of the handler is a refused request (body or options beyond the budget)",
          "R4C12": "yes: the two entry points of an exchange as separate steps with equal message ids on different endpoints (model MODE split, deferred responses in the mixed driver); a disturbed other key is reported under C12 in every branch",
          "C20": "yes: expiry under block-wise traffic on other keys (model `Other` now block-wise; driver scenario `expiry-traffic`)"}
 for d in sorted(glob.glob(os.path.join(ROOT, "seeded", "*", "meta.json"))):
